@@ -224,15 +224,84 @@ pub fn check_program(ctx: &mut Ctx, start: &Pos, moves: &[Mv], ops: &[Op]) -> Re
                 let allowed: BTreeSet<Mv> = legal.iter().copied().filter(|m| mask >> m.to & 1 == 1 && !removed.contains(m) && !yielded.contains(m)).collect();
                 let mut lens: Vec<(usize, (usize, Option<usize>))> = vec![];
                 let mut got: Vec<Mv> = vec![];
-                loop {
+                // how the phase is drained: next() by next() with len()/size_hint() before each call
+                // (3 phases in 4), or - after a few such steps - through another Iterator entry
+                // point (a type may specialise any of them)
+                let mode = fp(&(i, mask, "drain-mode")) % 16;
+                let steps_first = if mode < 12 { usize::MAX } else { (fp(&(i, "steps")) % 4) as usize };
+                let mut finished = false;
+                while got.len() < steps_first {
                     lens.push((mg.len(), mg.size_hint()));
                     match mg.next() {
                         Some(m) => got.push(bridge::rmv(m)),
-                        None => break,
+                        None => {
+                            finished = true;
+                            break;
+                        }
                     }
                     if got.len() > 300 {
                         return ctx.fail("iter:does-not-terminate", format!("phase #{} yields more than 300 moves", i), case());
                     }
+                }
+                if !finished {
+                    // the rest of the phase in one go; the length reported before must equal what comes
+                    let before = (mg.len(), mg.size_hint());
+                    let rest: Vec<Mv> = match mode {
+                        12 => {
+                            ctx.class("drain:collect");
+                            mg.by_ref().map(bridge::rmv).collect()
+                        }
+                        13 => {
+                            ctx.class("drain:for-loop");
+                            let mut v = vec![];
+                            for m in &mut mg {
+                                v.push(bridge::rmv(m));
+                            }
+                            v
+                        }
+                        14 => {
+                            ctx.class("drain:fold");
+                            mg.by_ref().fold(vec![], |mut v, m| {
+                                v.push(bridge::rmv(m));
+                                v
+                            })
+                        }
+                        _ => {
+                            ctx.class("drain:nth-then-rest");
+                            let k = (fp(&(i, "nth")) % 3) as usize;
+                            let mut v: Vec<Mv> = vec![];
+                            // nth(k) skips k moves: take them one by one first so that nothing is lost to the model
+                            for _ in 0..k {
+                                if let Some(m) = mg.next() {
+                                    v.push(bridge::rmv(m));
+                                }
+                            }
+                            if let Some(m) = mg.nth(0) {
+                                v.push(bridge::rmv(m));
+                            }
+                            v.extend(mg.by_ref().map(bridge::rmv));
+                            v
+                        }
+                    };
+                    if before.0 != rest.len() || before.1 != (rest.len(), Some(rest.len())) {
+                        ctx.fail(
+                            "iter:len",
+                            format!("phase #{} (mask {:#x}): after {} moves len() = {}, size_hint() = {:?}, but {} more moves were yielded", i, mask, got.len(), before.0, before.1, rest.len()),
+                            case(),
+                        )?;
+                    }
+                    if rest.len() > 300 {
+                        return ctx.fail("iter:does-not-terminate", format!("phase #{} yields more than 300 moves", i), case());
+                    }
+                    got.extend(rest);
+                    lens.push((mg.len(), mg.size_hint()));
+                    // align the bookkeeping below: one recorded length per yielded move, plus the final one
+                    let total = got.len();
+                    let mut full: Vec<(usize, (usize, Option<usize>))> = vec![];
+                    for j in 0..=total {
+                        full.push(if j < lens.len() - 1 && j < steps_first { lens[j] } else if j == total { *lens.last().unwrap() } else { (total - j, (total - j, Some(total - j))) });
+                    }
+                    lens = full;
                 }
                 // exhausted stays exhausted
                 if mg.next().is_some() {
@@ -347,7 +416,7 @@ pub fn run(cfg: &Cfg) -> i32 {
     engine::finish(
         report,
         EvidenceSpec {
-            rule: "cases = (position, program): positions are curated / set-up starts advanced by 0-12 reference moves; a program is 0-3 removals (a legal move, an en-passant capture or promotion if available, all moves of one piece, all destinations of one piece as a mask, a single destination, a generated mask) followed either by a direct drain of the fresh generator (no set_iterator_mask call; 1 program in 4) or by 0-3 mask phases (half of them as set_iterator_mask, then 0-2 further removals, then the drain; enemy occupancy and its complement, one destination, rank, file, empty, full, half of the destination squares, random, promotion/en-passant squares; occasionally another removal between phases) and a final full-mask phase; each phase is drained with len() and size_hint() recorded before every next(). Oracle: a set model over the reference legal moves - every phase yields each not-yet-yielded, not-removed legal move landing on the mask exactly once (other promotions to a removed promotion's square may or may not appear), nothing else, and every recorded len()/size_hint() equals the number of moves actually yielded afterwards in that phase. evaluations = programs. Non-trivial = >= 2 non-empty phases, or removal of an en-passant capture, a promotion or a piece's only move; distinct = program fingerprints.".into(),
+            rule: "cases = (position, program): positions are curated / set-up starts advanced by 0-12 reference moves; a program is 0-3 removals (a legal move, an en-passant capture or promotion if available, all moves of one piece, all destinations of one piece as a mask, a single destination, a generated mask) followed either by a direct drain of the fresh generator (no set_iterator_mask call; 1 program in 4) or by 0-3 mask phases (half of them as set_iterator_mask, then 0-2 further removals, then the drain; enemy occupancy and its complement, one destination, rank, file, empty, full, half of the destination squares, random, promotion/en-passant squares; occasionally another removal between phases) and a final full-mask phase; each phase is drained with len() and size_hint() recorded before every next() (one phase in four is drained, after 0-3 such steps, through collect / a for loop / fold / nth instead, with len() checked before and after). Oracle: a set model over the reference legal moves - every phase yields each not-yet-yielded, not-removed legal move landing on the mask exactly once (other promotions to a removed promotion's square may or may not appear), nothing else, and every recorded len()/size_hint() equals the number of moves actually yielded afterwards in that phase. evaluations = programs. Non-trivial = >= 2 non-empty phases, or removal of an en-passant capture, a promotion or a piece's only move; distinct = program fingerprints.".into(),
             assumptions: vec!["reference legal move set".into(), "masks are replaced only after exhaustion and removals are made only between phases, as the statement's quantifier says".into()],
             trusted_base: vec!["harness/src/refmodel.rs".into(), "proptest 1.11".into()],
             exhaustive: None,
